@@ -1,0 +1,186 @@
+//go:build verif
+
+package kgo
+
+// Verification contracts (comments only), read by /verif/govc. Compiled only with -tags verif; no code.
+
+// ---- C20: the fixed-width number codecs of the record formatter and the record reader are inverse ----
+// Writers (RecordFormatter side) append the low bytes of the number in the layout's order; readers (RecordReader
+// side, the closures parseReadSize returns) combine exactly those bytes. Per width and byte order, both sides are
+// proved against the same spec function, so reading what was written gives the number back whenever it fits the
+// layout's width (round-trip lemmas below).
+//@ spec b64at(s []byte, o int) uint64 = uint64(s[o])<<56 | uint64(s[o+1])<<48 | uint64(s[o+2])<<40 | uint64(s[o+3])<<32
+//@      | uint64(s[o+4])<<24 | uint64(s[o+5])<<16 | uint64(s[o+6])<<8 | uint64(s[o+7])
+//@ spec b32at(s []byte, o int) uint32 = uint32(s[o])<<24 | uint32(s[o+1])<<16 | uint32(s[o+2])<<8 | uint32(s[o+3])
+//@ spec b16at(s []byte, o int) uint16 = uint16(s[o])<<8 | uint16(s[o+1])
+//@ spec l64at(s []byte, o int) uint64 = uint64(s[o+7])<<56 | uint64(s[o+6])<<48 | uint64(s[o+5])<<40 | uint64(s[o+4])<<32
+//@      | uint64(s[o+3])<<24 | uint64(s[o+2])<<16 | uint64(s[o+1])<<8 | uint64(s[o])
+//@ spec l32at(s []byte, o int) uint32 = uint32(s[o+3])<<24 | uint32(s[o+2])<<16 | uint32(s[o+1])<<8 | uint32(s[o])
+//@ spec l16at(s []byte, o int) uint16 = uint16(s[o+1])<<8 | uint16(s[o])
+
+//@ func writeNumBig64(b []byte, n int64) (r []byte)
+//@   mode int bv
+//@   prop C20
+//@   nopanic
+//@   modifies elems(b)
+//@   ensures [int] len(r) == len(b) + 8
+//@   ensures [int] forall k in 0..len(b) :: r[k] == old(b[k])
+//@   ensures [bv] b64at(r, len(b)) == uint64(n)
+//@ func writeNumLittle64(b []byte, n int64) (r []byte)
+//@   mode int bv
+//@   prop C20
+//@   nopanic
+//@   modifies elems(b)
+//@   ensures [int] len(r) == len(b) + 8
+//@   ensures [int] forall k in 0..len(b) :: r[k] == old(b[k])
+//@   ensures [bv] l64at(r, len(b)) == uint64(n)
+//@ func writeNumBig32(b []byte, n int64) (r []byte)
+//@   mode int bv
+//@   prop C20
+//@   nopanic
+//@   modifies elems(b)
+//@   ensures [int] len(r) == len(b) + 4
+//@   ensures [int] forall k in 0..len(b) :: r[k] == old(b[k])
+//@   ensures [bv] b32at(r, len(b)) == uint32(uint64(n))
+//@ func writeNumLittle32(b []byte, n int64) (r []byte)
+//@   mode int bv
+//@   prop C20
+//@   nopanic
+//@   modifies elems(b)
+//@   ensures [int] len(r) == len(b) + 4
+//@   ensures [int] forall k in 0..len(b) :: r[k] == old(b[k])
+//@   ensures [bv] l32at(r, len(b)) == uint32(uint64(n))
+//@ func writeNumBig16(b []byte, n int64) (r []byte)
+//@   mode int bv
+//@   prop C20
+//@   nopanic
+//@   modifies elems(b)
+//@   ensures [int] len(r) == len(b) + 2
+//@   ensures [int] forall k in 0..len(b) :: r[k] == old(b[k])
+//@   ensures [bv] b16at(r, len(b)) == uint16(uint64(n))
+//@ func writeNumLittle16(b []byte, n int64) (r []byte)
+//@   mode int bv
+//@   prop C20
+//@   nopanic
+//@   modifies elems(b)
+//@   ensures [int] len(r) == len(b) + 2
+//@   ensures [int] forall k in 0..len(b) :: r[k] == old(b[k])
+//@   ensures [bv] l16at(r, len(b)) == uint16(uint64(n))
+//@ func writeNumByte(b []byte, n int64) (r []byte)
+//@   mode int bv
+//@   prop C20
+//@   nopanic
+//@   modifies elems(b)
+//@   ensures [int] len(r) == len(b) + 1
+//@   ensures [int] forall k in 0..len(b) :: r[k] == old(b[k])
+//@   ensures [bv] r[len(b)] == byte(uint64(n))
+
+// The readers: parseReadSize's closures, numbered as go/ssa builds them (the default arm of the switch last: $3 big64, $4 big32, $5 big16,
+// $6 little64, $7 little32, $8 little16, $9 byte). Each is handed exactly readKind.size bytes by the reader state machine (their requires).
+//@ func (*RecordReader) parseReadSize$3(b []byte, _ *Record) (err error)
+//@   mode bv
+//@   prop C20
+//@   nopanic
+//@   requires len(b) >= 8
+//@   ensures err == nil && **dst == b64at(b, 0)
+//@ func (*RecordReader) parseReadSize$4(b []byte, _ *Record) (err error)
+//@   mode bv
+//@   prop C20
+//@   nopanic
+//@   requires len(b) >= 4
+//@   ensures err == nil && **dst == uint64(b32at(b, 0))
+//@ func (*RecordReader) parseReadSize$5(b []byte, _ *Record) (err error)
+//@   mode bv
+//@   prop C20
+//@   nopanic
+//@   requires len(b) >= 2
+//@   ensures err == nil && **dst == uint64(b16at(b, 0))
+//@ func (*RecordReader) parseReadSize$6(b []byte, _ *Record) (err error)
+//@   mode bv
+//@   prop C20
+//@   nopanic
+//@   requires len(b) >= 8
+//@   ensures err == nil && **dst == l64at(b, 0)
+//@ func (*RecordReader) parseReadSize$7(b []byte, _ *Record) (err error)
+//@   mode bv
+//@   prop C20
+//@   nopanic
+//@   requires len(b) >= 4
+//@   ensures err == nil && **dst == uint64(l32at(b, 0))
+//@ func (*RecordReader) parseReadSize$8(b []byte, _ *Record) (err error)
+//@   mode bv
+//@   prop C20
+//@   nopanic
+//@   requires len(b) >= 2
+//@   ensures err == nil && **dst == uint64(l16at(b, 0))
+//@ func (*RecordReader) parseReadSize$9(b []byte, _ *Record) (err error)
+//@   mode bv
+//@   prop C20
+//@   nopanic
+//@   requires len(b) >= 1
+//@   ensures err == nil && **dst == uint64(b[0])
+
+// Round trips: a number that fits the layout's width is what the reader computes from the bytes the writer wrote
+// (the 64-bit layouts carry every int64; the narrower ones carry 0 <= n < 2^width).
+//@ lemma num32_roundtrip: forall n int64 :: (n >= 0 && n < 4294967296) ==> uint64(uint32(uint64(n))) == uint64(n)
+//@   mode bv
+//@   prop C20
+//@ lemma num16_roundtrip: forall n int64 :: (n >= 0 && n < 65536) ==> uint64(uint16(uint64(n))) == uint64(n)
+//@   mode bv
+//@   prop C20
+//@ lemma num8_roundtrip: forall n int64 :: (n >= 0 && n < 256) ==> uint64(byte(uint64(n))) == uint64(n)
+//@   mode bv
+//@   prop C20
+
+// The hex writers emit exactly width/4 lower-case hex digits, most significant nibble first (what the reader hands
+// to strconv.ParseUint with base 16; strconv itself is outside the contracts).
+//@ spec hexch(v uint64) byte = ite(v < 10, byte(48 + v), byte(87 + v))
+//@ func writeNumHex64(b []byte, n int64) (r []byte)
+//@   mode int bv
+//@   prop C20
+//@   nopanic
+//@   modifies elems(b)
+//@   ensures [int] len(r) == len(b) + 16
+//@   ensures [int] forall k in 0..len(b) :: r[k] == old(b[k])
+//@   ensures [bv] forall k in 0..16 :: r[len(b)+k] == hexch((uint64(n) >> uint(60 - 4*k)) & 0xf)
+//@ func writeNumHex32(b []byte, n int64) (r []byte)
+//@   mode int bv
+//@   prop C20
+//@   nopanic
+//@   modifies elems(b)
+//@   ensures [int] len(r) == len(b) + 8
+//@   ensures [int] forall k in 0..len(b) :: r[k] == old(b[k])
+//@   ensures [bv] forall k in 0..8 :: r[len(b)+k] == hexch((uint64(n) >> uint(28 - 4*k)) & 0xf)
+//@ func writeNumHex16(b []byte, n int64) (r []byte)
+//@   mode int bv
+//@   prop C20
+//@   nopanic
+//@   modifies elems(b)
+//@   ensures [int] len(r) == len(b) + 4
+//@   ensures [int] forall k in 0..len(b) :: r[k] == old(b[k])
+//@   ensures [bv] forall k in 0..4 :: r[len(b)+k] == hexch((uint64(n) >> uint(12 - 4*k)) & 0xf)
+//@ func writeNumHex8(b []byte, n int64) (r []byte)
+//@   mode int bv
+//@   prop C20
+//@   nopanic
+//@   modifies elems(b)
+//@   ensures [int] len(r) == len(b) + 2
+//@   ensures [int] forall k in 0..len(b) :: r[k] == old(b[k])
+//@   ensures [bv] r[len(b)] == hexch((uint64(n) >> 4) & 0xf) && r[len(b)+1] == hexch(uint64(n) & 0xf)
+//@ func writeNumHex4(b []byte, n int64) (r []byte)
+//@   mode int bv
+//@   prop C20
+//@   nopanic
+//@   modifies elems(b)
+//@   ensures [int] len(r) == len(b) + 1
+//@   ensures [int] forall k in 0..len(b) :: r[k] == old(b[k])
+//@   ensures [bv] r[len(b)] == hexch(uint64(n) & 0xf)
+//@ func writeNumBool(b []byte, n int64) (r []byte)
+//@   mode int
+//@   prop C20
+//@   nopanic
+//@   modifies elems(b)
+//@   ensures len(r) == len(b) + ite(n == 0, 5, 4)
+//@   ensures forall k in 0..len(b) :: r[k] == old(b[k])
+//@   ensures n == 0 ==> (r[len(b)] == 102 && r[len(b)+1] == 97 && r[len(b)+2] == 108 && r[len(b)+3] == 115 && r[len(b)+4] == 101)
+//@   ensures n != 0 ==> (r[len(b)] == 116 && r[len(b)+1] == 114 && r[len(b)+2] == 117 && r[len(b)+3] == 101)
